@@ -193,6 +193,12 @@ EXTRA = {
            "AST-level data-flow obligation set shows that exactly the caller's argument goes to alias_factory_subclass_from_arg with the documented "
            "family, that the result replaces the argument before any other use and is never rebound, and that the optional window defaults to "
            "GammaWindow for the causal style and HannWindow otherwise.",
+    "C09": " The torch tool's dataset constructor and __len__ are under contract (every argument stored unchanged under the attribute __getitem__ "
+           "reads; the utterance table is the tuple of the map's items in the map's order), closing the chain pipeline construction -> dataset -> "
+           "__getitem__.",
+    "C10": " The torch tool's dataset constructor and __len__ are under contract (every argument, the base seed and the position table included, "
+           "stored unchanged; the utterance table is the tuple of the map's items in the map's order).",
+    "C16": " Standardize.__init__ (how loaded statistics get in) is under contract as described for C17.",
     "C11": " The SPHERE clause goes through the same reader functions as C12: copy_samples (all five codings) and sphere_read_signal are under "
            "contract for C11 as well (replayed by the C12 stand-in); the stand-in also writes data sections longer than the reader's 16 KiB block "
            "with 3-7 channels.",
